@@ -285,6 +285,14 @@ class _Piece:
         yb = None if b is None else self.f(b)
         return (ya, yb) if self.slope > 0 else (yb, ya)
 
+    def hull_claim(self) -> Tuple[Optional[F], Optional[F]]:
+        """the hull used to claim that a physical value MUST NOT be valid: a constant piece whose internal domain is
+        not bounded on both sides has no derived physical limits in odxtools (every value is accepted and mapped to
+        the inverse value); the standard does not speak about it -> no claim"""
+        if self.slope == 0 and (self.fin_lo() is None or self.fin_hi() is None):
+            return (None, None)
+        return self.hull()
+
     def open_ends(self) -> List[F]:
         """exact physical values of the finite OPEN internal limits"""
         out = []
@@ -586,7 +594,10 @@ class RefCompu:
             if self.valid_internal(xv) is True:
                 acc = self.int_to_phys_accept(xv)
                 if isinstance(acc, Accept) and acc.ok(p):
-                    return True
+                    if acc.has_tie():
+                        unsure = True  # p is the image only under one of the two admissible tie resolutions
+                    else:
+                        return True
         return None if unsure else False
 
     def valid_physical(self, p: Any) -> Optional[bool]:
@@ -616,7 +627,7 @@ class RefCompu:
                 hulls = [(min(ys), max(ys))]
                 open_ends: List[F] = []
             else:
-                hulls = [pc.hull() for pc in self.pieces]
+                hulls = [pc.hull_claim() for pc in self.pieces]
                 open_ends = [e for pc in self.pieces for e in pc.open_ends()]
             if all(self._outside(P, h) for h in hulls):
                 return False
